@@ -68,6 +68,7 @@ fn run_vm(vm: &pest_vm::Vm, rule: &str, input: &str) -> String {
 }
 
 fn eval_line(l: &str, stats: &mut BTreeMap<String, u64>) -> (String, String) {
+    if std::env::var("VERIF_TRACE").is_ok() { eprintln!("CASE {}", l); }
     let bad = |m: &str| (format!("bad-op {}", m), "ok".to_string());
     if let Some(rest) = l.strip_prefix("G ") {
         let top = match parse_sexps(rest) { Some(t) if t.len() == 1 => t, _ => return bad("sexp") };
